@@ -231,6 +231,7 @@ def run(ctx):
             ck.ok("C02.setter", inst)
     setter_values(ctx)
     result_agreement(ctx)
+    mul_flags(ctx)
     ck.cov["setter_mask_pairs"] = len(ss.cache)
     ck.cov["unproducible_skipped"] = skipped
     ck.cov["excluded_os_interface"] = excluded
@@ -312,6 +313,133 @@ def result_agreement(ctx):
             else:
                 ck.ok("C02.result", inst)
     ck.floor("flag-result forms", n, 240)
+
+
+def _muls(t, acc):
+    if isinstance(t, tuple):
+        if t and t[0] == "bin" and t[1] in ("Mul", "MulUnchecked", "MulOvf"):
+            acc.add(t)
+        for x in t:
+            if isinstance(x, tuple):
+                _muls(x, acc)
+
+
+def mul_flags(ctx):
+    """C02.mulflags: MUL / IMUL set CF = OF = 1 exactly when the full product does not fit the destination width
+    (MUL: upper half non-zero; IMUL: the product is not the sign-extension of its low half). Decided per class of the
+    product: the handler's own tests on the 2N-bit product term are evaluated for the products whose bits N-1..2N-1 are
+    all zero, all one, and every single-bit deviation from either (MUL: upper bits zero, each single upper bit, and bit
+    N-1 alone); forms that use overflowing_mul are judged on the two values of its overflow flag."""
+    from . import C01
+    ck, facts, O, D, hm = ctx.check, ctx.facts, ctx.oracle, ctx.dispatch, ctx.hmodel
+    CF, OF = 0x1, 0x800
+    n = 0
+    for code in sorted(D.implemented()):
+        oc = O["codes"][code]
+        mn = oc["mnemonic"]
+        if mn not in ("Mul", "Imul") or not hm.producible(code):
+            continue
+        N = C01.KIND_BITS.get(oc["kinds"][0])
+        where = U.handler_where(facts, D, code)
+        signed = mn == "Imul"
+        for shape in hm.shapes(code):
+            inst = "Code=%s/%s" % (code, shape[0])
+            outs, I = hm.run(code, shape)
+            rets = [o for o in outs if o.kind == "return" and not C_is_err(o)]
+            prods = set()
+            for o in rets:
+                for c in o.path.conds:
+                    _muls(c[0], prods)
+                for e in o.path.events:
+                    if e[0] == "set_flags":
+                        _muls(e[2], prods)
+                        _muls(e[3], prods)
+            wide = [t for t in prods if t[1] != "MulOvf" and t[4] == 2 * N]
+            ovf = [t for t in prods if t[1] == "MulOvf"]
+            bad = None
+            und = None
+
+            def verdict(o, env):
+                sf = [e for e in o.path.events if e[0] == "set_flags"]
+                if not sf:
+                    return None
+                st, cl = I.decide(o.path, sf[-1][2]), I.decide(o.path, sf[-1][3])
+                if st is None:
+                    st = U.eval_term(sf[-1][2], env, o.path)
+                if cl is None:
+                    cl = U.eval_term(sf[-1][3], env, o.path)
+                if st is None or cl is None:
+                    return None
+                if st & CF and st & OF:
+                    return 1
+                if cl & CF and cl & OF and not st & (CF | OF):
+                    return 0
+                return "mixed"
+            if len(wide) == 1:
+                P = wide[0]
+                if signed:
+                    reps = []
+                    top = ((1 << (N + 1)) - 1) << (N - 1)
+                    low = 0x5A5A5A5A5A5A5A5A5A5A & ((1 << (N - 1)) - 1)
+                    reps.append((low, 0))
+                    reps.append((top | low, 0))
+                    for i in range(N - 1, 2 * N):
+                        reps.append((low | (1 << i), 1))
+                        reps.append(((top | low) & ~(1 << i), 1))
+                else:
+                    low = 0x5A5A5A5A5A5A5A5A5A5A & ((1 << N) - 1)
+                    reps = [(low, 0), (low | (1 << (N - 1)), 0), (0, 0)]
+                    for i in range(N, 2 * N):
+                        reps.append((low | (1 << i), 1))
+                for v, want in reps:
+                    env = {P: v}
+                    got = set()
+                    for o in rets:
+                        consistent = True
+                        for c in o.path.conds:
+                            if not H.mentions(c[0], P):
+                                continue
+                            g = U.eval_term(c[0], env, o.path)
+                            if g is None:
+                                und = und or "a test on the product cannot be evaluated: %s" % A.show(c[0])[:60]
+                                continue
+                            if (c[1] == "==" and g != c[2]) or (c[1] == "!=" and g in c[2]):
+                                consistent = False
+                                break
+                        if consistent:
+                            got.add(verdict(o, env))
+                    got.discard(None)
+                    if not got:
+                        und = und or "no path decides CF/OF for product %#x" % v
+                    elif got != {want}:
+                        bad = bad or "product %#x (%s): CF/OF %s, architecture %s" % (
+                            v, "does not fit" if want else "fits", sorted(got, key=str), "set" if want else "cleared")
+                ck.cov["mul_product_classes"] = ck.cov.get("mul_product_classes", 0) + len(reps)
+            elif len(ovf) == 1 and not wide:
+                t = ovf[0]
+                if A.width_of(t[2]) != N or bool(rets and rets[0].path.tags.get(("signed", t))) != signed:
+                    # the tag lives on whichever path built the term; look on all
+                    sg = any(o.path.tags.get(("signed", t)) for o in rets)
+                    if A.width_of(t[2]) != N or sg != signed:
+                        bad = bad or "overflow flag of a %d-bit %s multiplication, architecture %d-bit %s" % (
+                            A.width_of(t[2]), "signed" if sg else "unsigned", N, "signed" if signed else "unsigned")
+                for o in rets:
+                    d = I.decide(o.path, t)
+                    if d is None:
+                        continue
+                    v = verdict(o, {})
+                    if v is not None and v != d:
+                        bad = bad or "overflow = %d: CF/OF %s" % (d, v)
+            else:
+                und = "no single 2N-bit product or overflow flag found (%d wide products, %d overflow flags)" % (len(wide), len(ovf))
+            n += 1
+            if bad:
+                ck.violation("C02.mulflags", inst, bad, where=where, what="CF/OF of a multiplication do not tell whether the product fits")
+            elif und:
+                ck.undecided_("C02.mulflags", inst, und)
+            else:
+                ck.ok("C02.mulflags", inst)
+    ck.floor("MUL/IMUL forms x shapes", n, 30)
 
 
 def setter_values(ctx):
